@@ -35,11 +35,16 @@ MODEL = M6()
 
 def gen(rng, prop, job):
     from . import m6_till
+    if job.get("crash"):
+        return m6_till.gen_crash(rng)
     return m6_till.gen_scenario(rng, prop)
 
 
 def make_jobs(prop, tier, seed):
     jobs = plug.std_jobs(prop, tier, seed, "m6", n_quick=16, per_quick=8, schedules=6)
+    if prop == "C14":
+        for j in range(2 if tier == "quick" else 12):
+            jobs.append({"kind": "explore", "crash": True, "prop": prop, "seed": seed * 49979693 + j, "scenarios": 8, "schedules": 4, "no_driver": True})
     if tier == "thorough":
         for j in range(24):
             jobs.append({"kind": "pbound", "prop": prop, "seed": seed * 104729 + j, "k": 2, "budget": 1200})
